@@ -1,6 +1,7 @@
 package c10
 
 import (
+	"context"
 	"fmt"
 	"sort"
 	"strconv"
@@ -9,8 +10,13 @@ import (
 
 	zed "github.com/brimdata/super"
 	"github.com/brimdata/super/order"
+	"github.com/brimdata/super/pkg/field"
+	"github.com/brimdata/super/runtime"
 	"github.com/brimdata/super/runtime/sam/expr"
+	"github.com/brimdata/super/runtime/sam/op"
+	"github.com/brimdata/super/runtime/sam/op/join"
 	sortop "github.com/brimdata/super/runtime/sam/op/sort"
+	"github.com/brimdata/super/zbuf"
 	"pgregory.net/rapid"
 
 	"verif/gen"
@@ -94,13 +100,19 @@ func genJoinCase(t *rapid.T) JoinCase {
 	return c
 }
 
-func keyOf(v zed.Value) zed.Value {
-	k := v.Deref("k")
-	if k == nil {
-		panic("harness: join row without key field")
+func fieldOf(v zed.Value, name string) zed.Value {
+	fields, vals, ok := fieldsOf(v)
+	if ok {
+		for i, f := range fields {
+			if f.Name == name {
+				return vals[i]
+			}
+		}
 	}
-	return *k
+	panic("harness: join row without field " + name + ": " + oracle.Show(v))
 }
+
+func keyOf(v zed.Value) zed.Value { return fieldOf(v, "k") }
 
 // interleave merges the two inputs into one stream following mix.
 func interleave(l, r []zed.Value, mix []bool) []zed.Value {
@@ -141,10 +153,7 @@ func joinModel(zctx *zed.Context, kind string, l, r []zed.Value) []zed.Value {
 			if kind == "anti" {
 				break
 			}
-			p := rv.Deref(payload)
-			if p == nil {
-				panic("harness: join row without payload")
-			}
+			p := fieldOf(rv, payload)
 			lt := zed.TypeRecordOf(lv.Type())
 			fields := append(append([]zed.Field(nil), lt.Fields...), zed.NewField("hit", p.Type()))
 			typ := zctx.MustLookupTypeRecord(fields)
@@ -270,23 +279,30 @@ func runJoinCase(c JoinCase) *vt.Outcome {
 		o.Fail = vt.Failf("C10/join/"+c.Kind+"/sort-spill-dependent", "%s: with sort.MemMaxBytes=16 the result differs: %s", prog, d)
 		return o
 	}
-	// really sorted and declared sorted inputs
+	// Really sorted and declared sorted inputs.  These runs build the operator with join.New, exactly as
+	// compiler/kernel does after the optimizer has set Join.LeftDir/RightDir from the declared order of the
+	// two parents: two separate sorted inputs, no sort inserted.  (Declaring the order on the ONE forked
+	// stream instead deadlocks inside the flowgraph - fork back-pressure against the merge join, see
+	// known.json C10-join-fork-deadlock - so that path is not executed.)
 	for _, desc := range []bool{false, true} {
 		which := order.Asc
+		dir := order.Up
 		if desc {
 			which = order.Desc
+			dir = order.Down
 		}
 		cmp := expr.NewValueCompareFn(which, true)
-		stream := interleave(l, r, c.Mix)
-		sort.SliceStable(stream, func(a, b int) bool { return cmp(keyOf(stream[a]), keyOf(stream[b])) < 0 })
+		sl, sr := append([]zed.Value(nil), l...), append([]zed.Value(nil), r...)
+		sort.SliceStable(sl, func(a, b int) bool { return cmp(keyOf(sl[a]), keyOf(sl[b])) < 0 })
+		sort.SliceStable(sr, func(a, b int) bool { return cmp(keyOf(sr[a]), keyOf(sr[b])) < 0 })
 		name := fmt.Sprintf("sorted %s and declared", which)
-		out, f := run(name, stream, runOpts{sortKey: sortKeyOn("k", desc)})
-		if f != nil {
-			o.Fail = f
+		out, err := runJoinDirect(zctx, c.Kind, sl, sr, dir, c.Batch)
+		if err != nil {
+			o.Fail = queryFailure("join "+name, err)
 			return o
 		}
 		if d := oracle.SameMultiset(base, out); d != "" {
-			o.Fail = vt.Failf("C10/join/"+c.Kind+"/declared-sorted-differs", "%s: input really sorted %s on k and declared so gives a different result than unsorted input: %s", prog, which, d)
+			o.Fail = vt.Failf("C10/join/"+c.Kind+"/declared-sorted-differs", "%s: inputs really sorted %s on k and declared so (join.New with both directions set) give a different result than unsorted input: %s", prog, which, d)
 			return o
 		}
 	}
@@ -297,7 +313,7 @@ var joinProp = &vt.Prop[JoinCase]{
 	Name: "TestJoin",
 	Rule: "case = left rows {k,lv,[x]} and right rows {k,rv} (every row has its key; key palettes int64-only / string-only / mixed incl. 1, 1(uint64), 1., typed nulls, named) + kind in {inner,left,right,anti} + batch size + permutations; " +
 		"both inputs travel in one stream split by `fork (=> has(lv) => has(rv)) | <kind> join on k=k hit:=rv` (right: hit:=lv).  Layer 1 (keys all int64 or all string, no nulls): output multiset = nested-loop join with the documented shape. " +
-		"Layer 2 (all cases): same multiset for permuted inputs, for sort.MemMaxBytes=16 (the join's inserted sorts spill), and for input really sorted asc/desc on k and declared so.  Non-trivial: some key with multiplicity >=2 on both sides.",
+		"Layer 2 (all cases): same multiset for permuted inputs, for sort.MemMaxBytes=16 (the join's inserted sorts spill), and for inputs really sorted asc/desc on k and declared so (operator built with join.New and both directions set, as the kernel does).  Non-trivial: some key with multiplicity >=2 on both sides.",
 	Gen: genJoinCase,
 	Run: runJoinCase,
 }
@@ -305,3 +321,51 @@ var joinProp = &vt.Prop[JoinCase]{
 func init() { joinProp.Register() }
 
 func TestJoin(t *testing.T) { joinProp.Check(t) }
+
+// runJoinDirect builds the join operator the way compiler/kernel.(*Builder).compileSeq
+// does for a dag.Join whose LeftDir/RightDir are both dir.
+func runJoinDirect(zctx *zed.Context, kind string, left, right []zed.Value, dir order.Direction, batch int) ([]zed.Value, error) {
+	rctx := runtime.NewContext(context.Background(), zctx)
+	defer rctx.Cancel()
+	key := func() expr.Evaluator { return expr.NewDottedExpr(zctx, field.Path{"k"}) }
+	var lhs []*expr.Lval
+	var rhs []expr.Evaluator
+	payload := "rv"
+	if kind == "right" {
+		payload = "lv"
+	}
+	if kind != "anti" {
+		lhs = append(lhs, expr.NewLval([]expr.LvalElem{&expr.StaticLvalElem{Name: "hit"}}))
+		rhs = append(rhs, expr.NewDottedExpr(zctx, field.Path{payload}))
+	}
+	lp := zbuf.Puller(&batchScanner{src: &batchSource{vals: left, size: batch}, ectx: expr.NewContext()})
+	rp := zbuf.Puller(&batchScanner{src: &batchSource{vals: right, size: batch}, ectx: expr.NewContext()})
+	var anti, inner bool
+	switch kind {
+	case "anti":
+		anti = true
+	case "inner":
+		inner = true
+	case "right":
+		lp, rp = rp, lp
+	}
+	j, err := join.New(rctx, anti, inner, lp, rp, key(), key(), dir, dir, lhs, rhs, expr.Resetters{})
+	if err != nil {
+		return nil, err
+	}
+	puller := op.NewCatcher(j)
+	var out []zed.Value
+	for {
+		b, err := puller.Pull(false)
+		if err != nil {
+			return out, err
+		}
+		if b == nil {
+			return out, nil
+		}
+		for _, v := range b.Values() {
+			out = append(out, v.Copy())
+		}
+		b.Unref()
+	}
+}
